@@ -25,9 +25,15 @@ MANIFEST_NOTE = ("Trusted: Lean kernel (+propext/Classical.choice/Quot.sound), t
 TECHNIQUE = "Lean 4 refinement proofs (invariant + induction over operation histories) + differential correspondence with std:: shadow oracles"
 TRANSLATORS = []
 HARNESS = dict(
-    sources=["cxx_c11.cc"],
+    # cxx_c11_rel.cc: the same runners (c11_containers.hh) against the headers in the release configuration (NDEBUG, no
+    # DUNE_CHECK_BOUNDS / CHECK_RESERVEDVECTOR; library renamed to another namespace); cxx_c11.cc is "all checks on"
+    sources=["cxx_c11.cc", "cxx_c11_rel.cc"],
     repo_sources=["dune/common/exceptions.cc", "dune/common/stdstreams.cc"],
-    flags=["-O0"],   # five containers x several template parameters: -O1 with sanitizers takes > 60 s to compile
+    # -O0: five containers x ~25 template parameter values x two build configurations; -O1 with sanitizers takes minutes.
+    # -g1 (line tables + function names for sanitizer reports) and a UBSan set without the checks that cannot concern
+    # container contents (null/alignment/vptr/pointer-overflow/object-size; a null or wild access still dies under ASan)
+    # keep the compile of both units at ~30 s; signed overflow, shifts, bounds, bool, enum, ... and ASan stay on
+    flags=["-O0", "-g1", "-fno-sanitize=null,alignment,vptr,pointer-overflow,object-size,nonnull-attribute,returns-nonnull-attribute"],
 )
 RULE = ("cases: one random operation history (0..40 ops quick, ..60 thorough) per line over ArrayList<int,N> N in {0,1,2,3,4,7} "
         "(two instances; copy construction/assignment both ways, self-assignment), SLList<int> (two instances + modify "
@@ -60,7 +66,7 @@ def batches(tier, seed):
     for i in range(12):
         res.append(dict(args=["--seed", _seed(seed, i), "--cases", "15000", "--tier", tier], tag="g%d" % i, timeout=3000))
     for kind, n in (("al1", 7 ** 6), ("al2", 7 ** 6), ("al3", 7 ** 6), ("sl", 10 ** 5), ("lru", 8 ** 5),
-                    ("al2c", 10 ** 5), ("al3c", 10 ** 5), ("lruc", 10 ** 5)):
+                    ("al2c", 10 ** 5), ("al3c", 10 ** 5), ("lruc", 10 ** 5), ("bv65", 12 ** 4), ("bv129r", 12 ** 3)):
         res.append(dict(args=["--enum", kind, "--cases", str(n), "--tier", tier], tag="enum_" + kind, timeout=3000))
     return res
 
